@@ -485,6 +485,11 @@ func (nw *netw) nodeEvent(r *rnode, ev *tevent, forceCrash *crashPlan, f func() 
 	from := r.lastOuts
 	st, p := f()
 	to := r.rec.len()
+	// real timers: if the timer that is armed now could have fired before the
+	// line above, or the outputs were produced by two activations of the engine
+	// (a gap of the length of a step timer), outputs cannot be attributed to
+	// events: the trace is not used for the correspondence
+	late := r.lateForTimer()
 	nw.nEvents++
 	nw.seq++
 	ev.Seq = nw.seq
@@ -494,6 +499,11 @@ func (nw *netw) nodeEvent(r *rnode, ev *tevent, forceCrash *crashPlan, f func() 
 	outs := r.rec.slice(from, to)
 	finIdx := -1
 	var touts []tout
+	for i := 1; i < len(outs); i++ {
+		if outs[i].At.Sub(outs[i-1].At) > 700*time.Millisecond {
+			late = true
+		}
+	}
 	for i, o := range outs {
 		t, ok := nw.decodeOut(o)
 		if !ok {
@@ -539,6 +549,9 @@ func (nw *netw) nodeEvent(r *rnode, ev *tevent, forceCrash *crashPlan, f func() 
 			return
 		}
 		// the next height
+		if late {
+			r.histFor(h + 1).Discard = "an armed timer may have fired before the outputs of an event were collected"
+		}
 		r.traceH = h + 1
 		r.initPend = &tevent{K: "restart", Cut: -1, Outs: touts[finIdx+1:], Pkt: -1}
 		r.lastOuts = to
@@ -553,6 +566,14 @@ func (nw *netw) nodeEvent(r *rnode, ev *tevent, forceCrash *crashPlan, f func() 
 	if st.Height != h && !r.down {
 		r.harnessErr = fmt.Sprintf("engine at height %d while the trace is at height %d", st.Height, h)
 		hist.Discard = r.harnessErr
+	}
+	if late && hist.Discard == "" {
+		hist.Discard = "an armed timer may have fired before the outputs of an event were collected"
+	}
+	if int(st.Round) > 2*nw.n && hist.Discard == "" {
+		// beyond round 2n enterNewRound waits for nextProposeTime with a timer of
+		// unknown (short) length
+		hist.Discard = "round above 2n (new-round delay timers of unknown length)"
 	}
 	ev.Outs = touts
 	ev.Post = nw.obs(r, st, h)
